@@ -34,6 +34,16 @@ claimed = {
          "Every entry of a protected reference is independently valid or violating, revoked or not (annotations right after, anywhere later, multi-target, by any actor) and carries one of three trees; other-ref pushes, policy switches and attestation entries are interleaved. The recovery rule as worded is evaluated over ground truth: any history whose violation is not revoked and repaired as required must be rejected.",
          "Only the only-if direction is a verdict; first-entry violations and unauthorised fix entries are unspecified here.",
          "DESIGN.md §6 C07"),
+ "C11": ("exploration",
+         "deterministic simulation: the identical seeded operation list re-executed under P and under P plus/minus global rules (exact replay makes the two runs comparable); reference model for the direct rule",
+         "C01-style histories whose policies declare, change and remove global threshold and block-force-push rules (matching the verified reference, another one, or everything), with force pushes. Every verification is compared (i) with the model under P+G and (ii) with the same verification in a second execution of the same operations with all global rules stripped: accepting under P+G but not under P is a violation.",
+         "SimStore; controller-declared global rules are not generated.",
+         "DESIGN.md §6 C11"),
+ "C08": ("exploration",
+         "deterministic simulation: cache-holding actor with stale-cache faults and restarts vs a cache-less fresh twin on a fork of the same store",
+         "One actor populates, loses (stale-cache fault), deletes and advances a persistent cache while others grow the log (including key revocations and approvals); each of its verifications (all modes, repeated, other refs first, from its own checkpoints) must equal the verdict class and tip of a fresh cache-less process on a fork of the same store, and may change no reference but the cache reference.",
+         "Equality only (correctness of verdicts is C01); SimStore namespaces refs/local/* per simulated process.",
+         "DESIGN.md §6 C08"),
 }
 
 not_applicable = {
